@@ -15,6 +15,7 @@ from ..seams import ENTROPY
 from ..world import real_eval
 
 ID = 'C13'
+NEEDS_BUILTIN_WRAPPERS = True      # reads what the builtin monitor records (hooks / effect log)
 LEVEL = 'exploration'
 TIERS = {'quick': 16000, 'thorough': 400000}
 RULE = ('seeded histories of 3-12 evals on one parser over one host names mapping (lists, dicts, nested, a host '
